@@ -25,7 +25,7 @@ theorem C10_positions_kept (expand : Expand E) (norm : String → String) (prefe
 theorem C10_error_is_entry_error (expand : Expand E) (norm : String → String) (prefer : Bool) (env : Env)
     (b : List (String × String)) (e : E)
     (h : blockLoop expand norm prefer [] [] env b = .error e) :
-    ∃ kv ∈ b, ∃ env', (expand (env'.get norm) kv.1 = .error e ∨ expand (env'.get norm) kv.2 = .error e) :=
+    ∃ kv ∈ b, ∃ env' : Env, (expand (env'.get norm) kv.1 = .error e ∨ expand (env'.get norm) kv.2 = .error e) :=
   block_error expand norm prefer env b e h
 
 /-- Runtime precedence: with the flag set, every name present in the caller's environment initially
@@ -79,6 +79,8 @@ def toyExpand : Expand Unit := fun lookup s =>
 
 example : specFold toyExpand id false ⟨[("HOME", "/root")]⟩ [("A", "$HOME"), ("B", "$A"), ("C", "$D"), ("D", "x")]
     = .ok ([("A", "/root"), ("B", "/root"), ("C", ""), ("D", "x")],
-           ⟨[("HOME", "/root"), ("A", "/root"), ("B", "/root"), ("C", ""), ("D", "x")]⟩) := by decide
+           ⟨[("HOME", "/root"), ("A", "/root"), ("B", "/root"), ("C", ""), ("D", "x")]⟩) := by
+  -- plain `decide` gets stuck on `String.startsWith` (elaborator whnf); the kernel evaluates it
+  decide +kernel
 
 end GoPipeline.EnvBlock
